@@ -378,8 +378,25 @@ impl Monitor {
         }
     }
 
-    pub fn on_error(&mut self, _pc: usize, dispatch: &VmDispatch, _depths: &VmDepths) {
+    pub fn on_error(&mut self, pc: usize, dispatch: &VmDispatch, depths: &VmDepths) {
         self.report.error_dispatches += 1;
+        // I5: an error raised while an error handler is running (before its RESUME) must
+        // not be dispatched to the handler again: every round pushes one more handler
+        // context and nesting base, the stacks grow with the iteration count and the
+        // program never ends
+        if let VmDispatch::Handler(_) = dispatch {
+            if depths.has_last_error_address {
+                self.violation(
+                    "I5",
+                    pc,
+                    None,
+                    format!(
+                        "error raised at pc {} while an error handler is active is dispatched to the handler again (context depth {}): the handler is entered forever, one context deeper each time",
+                        pc, depths.context_states
+                    ),
+                );
+            }
+        }
         // the statement under way in the current region is abandoned
         let depth = self.regions.len();
         self.calls.retain(|c| c.region_depth < depth);
